@@ -398,7 +398,7 @@ func (obj *Real64) UnmarshalJSON(data []byte) error {
       obj.Derivative = r.Derivative
     } else
     if len(r.Derivative) == 0 && len(r.Hessian) != 0 {
-      obj.Alloc(len(r.Derivative), 2)
+      obj.Alloc(len(r.Hessian), 2)
       obj.Hessian = r.Hessian
     }
     return nil
